@@ -14,6 +14,7 @@ Hypothesis pass (generate+shrink) and written as replay files.
 Exit codes: 0 held / 1 VIOLATION printed / 2 harness error.
 """
 import collections
+import contextlib
 import hashlib
 import importlib
 import json
@@ -27,6 +28,16 @@ import time
 import traceback
 
 from . import boot
+
+class _Sink(object):
+    def write(self, s):
+        return len(s)
+
+    def flush(self):
+        pass
+
+
+_SINK = _Sink()
 
 NSHARDS = int(os.environ.get("VERIF_SHARDS", "16"))
 SCALE = float(os.environ.get("VERIF_SCALE", "1"))
@@ -201,7 +212,8 @@ def guarded(check, case, ctx, pid):
     exception from the harness itself propagates (exit 2)."""
     import hypothesis.errors
     try:
-        check(case, ctx)
+        with contextlib.redirect_stdout(_SINK):
+            check(case, ctx)
     except hypothesis.errors.HypothesisException:
         raise
     except (Exception, SystemExit) as e:
@@ -346,7 +358,7 @@ def shrink_key(mod, camp, camp_idx, key, tier, seed, shard, nshards, scratch_roo
 # Replay
 # --------------------------------------------------------------------------------------
 def write_replay(pid, key, campaign, case, msg, directory=None):
-    directory = directory or os.path.join(boot.HERE, "replays", pid)
+    directory = directory or os.path.join(os.environ.get("VERIF_REPLAY_DIR") or os.path.join(boot.HERE, "replays"), pid)
     os.makedirs(directory, exist_ok=True)
     name = "%s__%s.json" % (pid, hashlib.blake2b(key.encode(), digest_size=6).hexdigest())
     path = os.path.join(directory, name)
@@ -560,8 +572,9 @@ def _main(mod, pid, tier, replay, seed, scratch_root, t0):
         ev["coverage"]["exhaustive_subdomains"] = exhaustive
         if all(e["complete"] for e in exhaustive.values()) and all(c.kind == "enum" for c in camps):
             ev["coverage"]["exhaustive"] = True
-    os.makedirs(os.path.join(boot.HERE, "evidence"), exist_ok=True)
-    with open(os.path.join(boot.HERE, "evidence", pid + ".json"), "w") as f:
+    evdir = os.environ.get("VERIF_EVIDENCE_DIR") or os.path.join(boot.HERE, "evidence")
+    os.makedirs(evdir, exist_ok=True)
+    with open(os.path.join(evdir, pid + ".json"), "w") as f:
         json.dump(ev, f, indent=1, sort_keys=True)
         f.write("\n")
     print("%s %s: %d evaluations, %d distinct non-trivial, %d failing key(s) [%d known], %d violation(s), %.1fs%s"
